@@ -566,6 +566,14 @@ RULE_EXTRA9 = {
 for _pid, _x in RULE_EXTRA9.items():
     PROPS[_pid]["rule"] = PROPS[_pid]["rule"] + _x
 
+# Workloads added against the tenth wave (DESIGN 9.5).
+RULE_EXTRA10 = {
+    "C06": "; UNKNOWN-ATTRIBUTES lists read into used receivers (made with spare capacity and a shorter length; carried over a longer and then a shorter list)",
+    "C18": "; messages given up: bytes written and the object reset with no Sum in between, once or twice in a row, before the next message",
+}
+for _pid, _x in RULE_EXTRA10.items():
+    PROPS[_pid]["rule"] = PROPS[_pid]["rule"] + _x
+
 PROPS["C15"]["assumptions"] = PROPS["C15"]["assumptions"] + [
     "heap-object leak check: growth of live heap objects by 3000 or more in each of three rounds of 3000 closed clients is a leak (unchanged tree: below 100); the harness module declares go 1.20, so timers that were not stopped stay in the runtime's heap",
 ]
